@@ -443,6 +443,14 @@ class SSHChannel(Generic[AnyStr], SSHPacketHandler):
             return
 
         if self._send_state in {'close_pending', 'closed'}:
+            if self._send_state == 'close_pending':
+                # Still waiting to flush our own data before the close can
+                # go out: give the dropped bytes back to the peer's window,
+                # or two channels closing at the same time with exhausted
+                # windows wait for each other forever
+                self.send_packet(MSG_CHANNEL_WINDOW_ADJUST,
+                                 UInt32(len(data)))
+
             return
 
         if self._recv_paused:
